@@ -148,6 +148,32 @@ pub struct FReg {
     pub var: FqVar,
     pub native: Fq,
     pub is_const: bool,
+    /// the gadget may return either square root (isqrt output): compared up to sign
+    pub sign_free: bool,
+}
+
+/// A value the prover is free to choose: everything the interpreter itself allocates in witness or
+/// input mode (elements, field values, the bits of a scalar, selector booleans).
+pub enum InKind {
+    Elem(ElementVar, AE),
+    Fq(FqVar, Fq),
+    Bool(Boolean<Fq>, bool),
+}
+
+/// One materialised observable: fresh witness variables constrained equal to a variable's value, so
+/// that the value an *assignment* gives it can be read off by column (witness index).
+#[derive(Clone, Debug)]
+pub enum MatItem {
+    Elem { what: String, x: usize, y: usize, native: AE },
+    Fq { what: String, w: usize, native: Fq, sign_free: bool },
+    Bool { what: String, w: usize, native: bool },
+}
+
+pub struct Mat {
+    pub inputs: Vec<MatItem>,
+    pub outputs: Vec<MatItem>,
+    /// witness index of the first materialised variable
+    pub first_wit: usize,
 }
 
 #[derive(Clone, Copy, PartialEq, Eq, Debug)]
@@ -172,6 +198,10 @@ pub struct Machine {
     pub steps_done: usize,
     /// set while a step consumes a poisoned register: value comparisons are meaningless then
     suppress: std::cell::Cell<bool>,
+    /// everything allocated as a free witness / public input by the interpreter itself
+    pub inputs: Vec<InKind>,
+    /// a lazily allocated (possibly undecodable) operand exists: its free value is not tracked
+    pub has_lazy: bool,
 }
 
 pub enum StepOut {
@@ -215,7 +245,7 @@ pub fn elem_eq_exact(got: &AE, want: &AE) -> Result<(), String> {
 
 impl Machine {
     pub fn new(run: Run, setup: bool) -> Machine {
-        Machine { cs: new_cs(setup), ev: (0..NE).map(|_| None).collect(), fv: (0..NF).map(|_| None).collect(), run, expect_unsat: None, bools: Vec::new(), steps_done: 0, suppress: std::cell::Cell::new(false) }
+        Machine { cs: new_cs(setup), ev: (0..NE).map(|_| None).collect(), fv: (0..NF).map(|_| None).collect(), run, expect_unsat: None, bools: Vec::new(), steps_done: 0, suppress: std::cell::Cell::new(false), inputs: Vec::new(), has_lazy: false }
     }
 
     /// operand selection: the (i mod #set)-th register that holds a value, so that programs
@@ -337,6 +367,9 @@ impl Machine {
                 }
                 .map_err(|e| synth(e, &name))?;
                 self.check_elem(&name, &var, &native, ctx)?;
+                if *mode != Mode::Constant {
+                    self.inputs.push(InKind::Elem(var.clone(), native));
+                }
                 self.ev[*dst as usize % NE] = Some(EReg { var, native, is_const: *mode == Mode::Constant, poisoned: false });
             }
             GOp::Realloc { dst, a, mode, via } => {
@@ -358,6 +391,9 @@ impl Machine {
                 }
                 .map_err(|e| synth(e, &name))?;
                 self.check_elem(&name, &var, &native, ctx)?;
+                if *mode != Mode::Constant {
+                    self.inputs.push(InKind::Elem(var.clone(), native));
+                }
                 self.ev[*dst as usize % NE] = Some(EReg { var, native, is_const: *mode == Mode::Constant, poisoned: false });
             }
             GOp::AllocLazy { dst, val, mode } => {
@@ -367,6 +403,7 @@ impl Machine {
                 let fv = fq_of(&val.0);
                 let nat = ark::Encoding(fv.to_bytes()).vartime_decompress();
                 let var = <ElementVar as AllocVar<Fq, Fq>>::new_variable(cs.clone(), || Ok(fv), mode.ark()).map_err(|e| synth(e, &name))?;
+                self.has_lazy = true;
                 match nat {
                     Ok(n) => self.ev[*dst as usize % NE] = Some(EReg { var, native: n, is_const: false, poisoned: false }),
                     Err(_) => self.ev[*dst as usize % NE] = Some(EReg { var, native: AE::IDENTITY, is_const: false, poisoned: true }),
@@ -381,7 +418,10 @@ impl Machine {
                 let native = fq_of(&val.0);
                 let var = FqVar::new_variable(cs.clone(), || Ok(native), mode.ark()).map_err(|e| synth(e, &name))?;
                 self.check_fq(&name, &var, &native, ctx)?;
-                self.fv[*dst as usize % NF] = Some(FReg { var, native, is_const: *mode == Mode::Constant });
+                if *mode != Mode::Constant {
+                    self.inputs.push(InKind::Fq(var.clone(), native));
+                }
+                self.fv[*dst as usize % NF] = Some(FReg { var, native, is_const: *mode == Mode::Constant, sign_free: false });
             }
             GOp::Compress { dst, e } => {
                 let (var, native, is_const) = ereg!(*e);
@@ -396,7 +436,7 @@ impl Machine {
                 };
                 let nat = native.vartime_compress_to_field();
                 self.check_fq(&name, &out, &nat, ctx)?;
-                self.fv[*dst as usize % NF] = Some(FReg { var: out, native: nat, is_const: false });
+                self.fv[*dst as usize % NF] = Some(FReg { var: out, native: nat, is_const: false, sign_free: false });
             }
             GOp::Decompress { dst, f } => {
                 let (var, native, is_const) = freg!(*f);
@@ -530,6 +570,7 @@ impl Machine {
                     let mut v = Vec::new();
                     for b in &bits {
                         v.push(Boolean::new_witness(cs.clone(), || Ok(*b)).map_err(|e| synth(e, &name))?);
+                        self.inputs.push(InKind::Bool(v.last().unwrap().clone(), *b));
                     }
                     v
                 };
@@ -567,6 +608,7 @@ impl Machine {
                 }
                 let eq = matches!(op, GOp::CondEnforceEqual { .. });
                 let c = Boolean::new_witness(cs.clone(), || Ok(*cond)).map_err(|e| synth(e, &name))?;
+                self.inputs.push(InKind::Bool(c.clone(), *cond));
                 if eq { va.conditional_enforce_equal(&vb, &c) } else { va.conditional_enforce_not_equal(&vb, &c) }.map_err(|e| synth(e, &name))?;
                 if *cond && (na == nb) != eq {
                     native_fails = Some(format!("{name} (condition true) on natively {} elements", if na == nb { "equal" } else { "different" }));
@@ -576,6 +618,7 @@ impl Machine {
                 let (va, na, ca) = ereg!(*a);
                 let (vb, nb, cb) = ereg!(*b);
                 let c = Boolean::new_witness(cs.clone(), || Ok(*cond)).map_err(|e| synth(e, &name))?;
+                self.inputs.push(InKind::Bool(c.clone(), *cond));
                 let out = ElementVar::conditionally_select(&c, &va, &vb).map_err(|e| synth(e, &name))?;
                 let nat = if *cond { na } else { nb };
                 self.check_elem(&name, &out, &nat, ctx)?;
@@ -605,7 +648,7 @@ impl Machine {
                 }
                 // the register keeps the gadget's own sign choice
                 let kept = y.value().unwrap_or(ny);
-                self.fv[*dst as usize % NF] = Some(FReg { var: y, native: if kept == -ny { -ny } else { ny }, is_const: false });
+                self.fv[*dst as usize % NF] = Some(FReg { var: y, native: if kept == -ny { -ny } else { ny }, is_const: false, sign_free: true });
             }
             GOp::IsNegative { f } | GOp::IsNonnegative { f } => {
                 let (var, native, _) = freg!(*f);
@@ -621,7 +664,7 @@ impl Machine {
                 self.check_fq(&name, &out, &nat, ctx)?;
                 let is_const2 = matches!(out, FqVar::Constant(_));
                 let _ = is_const;
-                self.fv[*dst as usize % NF] = Some(FReg { var: out, native: nat, is_const: is_const2 });
+                self.fv[*dst as usize % NF] = Some(FReg { var: out, native: nat, is_const: is_const2, sign_free: false });
             }
             GOp::ToBits { a } => {
                 let (va, _, _) = ereg!(*a);
@@ -688,6 +731,71 @@ impl Machine {
     pub fn satisfied(&self) -> bool {
         self.cs.is_satisfied().unwrap_or(false)
     }
+
+    /// Pin every free input and every observable output (live registers, gadget booleans) to fresh
+    /// witness variables (`w = value; enforce w == var`), so that their values under *any* assignment
+    /// of the finished system can be read by column. Returns None when an observable has no value
+    /// (constants are skipped; poisoned registers have no native counterpart).
+    pub fn materialize(&self) -> Option<Mat> {
+        let cs = self.cs.clone();
+        let first_wit = cs.num_witness_variables();
+        let mat_fq = |var: &FqVar| -> Option<Option<usize>> {
+            if matches!(var, FqVar::Constant(_)) {
+                return Some(None);
+            }
+            let idx = cs.num_witness_variables();
+            let w = FqVar::new_witness(cs.clone(), || var.value()).ok()?;
+            w.enforce_equal(var).ok()?;
+            Some(Some(idx))
+        };
+        let mat_elem = |what: String, var: &ElementVar, native: &AE| -> Option<Option<MatItem>> {
+            if var.cs().is_none() {
+                return Some(None);
+            }
+            let (x, y) = var.verif_xy().ok()?;
+            match (mat_fq(&x)?, mat_fq(&y)?) {
+                (Some(x), Some(y)) => Some(Some(MatItem::Elem { what, x, y, native: *native })),
+                _ => Some(None),
+            }
+        };
+        let mat_bool = |what: String, b: &Boolean<Fq>, native: bool| -> Option<Option<MatItem>> {
+            if matches!(b, Boolean::Constant(_)) {
+                return Some(None);
+            }
+            let f: FqVar = FqVar::from(b.clone());
+            Some(mat_fq(&f)?.map(|w| MatItem::Bool { what, w, native }))
+        };
+        let mut inputs = Vec::new();
+        for (i, inp) in self.inputs.iter().enumerate() {
+            let item = match inp {
+                InKind::Elem(v, n) => mat_elem(format!("input element #{i}"), v, n)?,
+                InKind::Fq(v, n) => mat_fq(v)?.map(|w| MatItem::Fq { what: format!("input field value #{i}"), w, native: *n, sign_free: false }),
+                InKind::Bool(b, n) => mat_bool(format!("input boolean #{i}"), b, *n)?,
+            };
+            inputs.extend(item);
+        }
+        let mut outputs = Vec::new();
+        for (i, r) in self.ev.iter().enumerate() {
+            if let Some(r) = r {
+                if r.poisoned || r.is_const {
+                    continue;
+                }
+                outputs.extend(mat_elem(format!("element register {i}"), &r.var, &r.native)?);
+            }
+        }
+        for (i, r) in self.fv.iter().enumerate() {
+            if let Some(r) = r {
+                if r.is_const {
+                    continue;
+                }
+                outputs.extend(mat_fq(&r.var)?.map(|w| MatItem::Fq { what: format!("field register {i}"), w, native: r.native, sign_free: r.sign_free }));
+            }
+        }
+        for (what, b, native) in &self.bools {
+            outputs.extend(mat_bool(format!("boolean output of {what}"), b, *native)?);
+        }
+        Some(Mat { inputs, outputs, first_wit })
+    }
 }
 
 /// run a program with the honest prover; per-step value checks; `satisfied == native_ok`
@@ -747,11 +855,12 @@ fn via() -> impl Strategy<Value = Via> {
 pub fn fq_input() -> BoxedStrategy<Num> {
     use crate::props::common::{bytes32_near, pt_src};
     prop_oneof![
-        3 => pt_src().prop_map(|s| Num(crate::refmodel::CURVE.encode_spec(&s.point()))),
-        3 => bytes32_near().prop_map(|b| Num(b.int() % &Q.m)),
-        2 => gen::fq_special(),
+        6 => pt_src().prop_map(|s| Num(crate::refmodel::CURVE.encode_spec(&s.point()))),
+        6 => bytes32_near().prop_map(|b| Num(b.int() % &Q.m)),
+        4 => gen::fq_special(),
+        1 => gen::r0_targeted(),
         1 => prop_oneof![Just(0u32), Just(1), Just(2), Just(8)].prop_map(|v| Num(N::from(v))),
-        1 => Just(Num(&Q.m - 1u32)),
+        2 => Just(Num(&Q.m - 1u32)),
     ]
     .boxed()
 }
